@@ -7,6 +7,9 @@ patch="$1"; shift
 if [ -n "$(git -C /repo status --porcelain)" ]; then echo "mut.sh: /repo is not clean"; exit 2; fi
 git -C /repo apply "$patch" || { echo "mut.sh: patch does not apply"; exit 2; }
 rc=0
+# evidence/ and replay/ describe the unchanged tree: keep them out of mutant runs
+sav=$(mktemp -d /var/tmp/verif-mut.XXXXXX)
+cp -a /verif/evidence "$sav/evidence"; [ -d /verif/replay ] && cp -a /verif/replay "$sav/replay"
 for p in "$@"; do
   out=$(/verif/check "$p" 2>&1); r=$?
   echo "$out" | grep -E "^(VIOLATION|TOOL-ERROR|KNOWN-FINDING|property=)" | cut -c1-260
@@ -14,4 +17,6 @@ for p in "$@"; do
   [ $r -ne 0 ] && rc=$r
 done
 git -C /repo checkout -- . ; git -C /repo clean -fdq -- . 2>/dev/null
+rm -rf /verif/evidence /verif/replay; mv "$sav/evidence" /verif/evidence; [ -d "$sav/replay" ] && mv "$sav/replay" /verif/replay
+rm -rf "$sav"
 exit $rc
